@@ -889,3 +889,9 @@ mod process_inbound_events_tests;
 #[cfg(test)]
 #[path = "raft_test/raft_comprehensive_tests.rs"]
 mod raft_comprehensive_tests;
+
+#[cfg(deventlab_d_engine_verif)]
+#[path = "raft_verif.rs"]
+mod raft_verif;
+#[cfg(deventlab_d_engine_verif)]
+pub use raft_verif::VerifView;
